@@ -2,13 +2,22 @@
   C07 at the API level: `apiDegrade` (Model/ApiRes.lean) — helper lemmas for the API part of
   Props/C07.lean.
 
-  Part 0: `apiDegrade` / `apiDegradeCore` as explicit decision trees over NAMED reductions
-          (`wideRed`, `recRed`, `intRed`, `fltRed`; the same decomposition as Lemmas/ApiDor.lean,
-          which cannot be imported here: it depends on Props/C10, which imports Props/C07).
-  Part 1: core-level facts: a `replace` update of an empty map (what `rehouse` does) — dense view
-          AND coverage mask; sums of dyadics with zero weights.
-  Part 2: what a successful `rehouse` returns.
-  Part 3: what a successful `coreRest` returns, branch by branch, as a dense-view statement.
+  Part 0: `apiDegrade` / `apiDegradeCore` as explicit decision trees (`degradeSpec`,
+          `coreWeights >>= coreRest`) over NAMED reductions (`wideRed`, `recRed`, `intRed`,
+          `fltRed`; the same decomposition as Lemmas/ApiDor.lean, which cannot be imported here:
+          it depends on Props/C10, which imports Props/C07).
+  Part 1: a `replace` update of an empty map (what `rehouse` does): dense view AND coverage mask.
+  Part 2: what a successful `rehouse` returns (`Rehoused`).
+  Part 3: the dense view of `_degrade` (`coreRest_ok`): `coreRed` of the (value, weight) pairs
+          of ALL the children of every covered coarse pixel; what the weight checks establish.
+  Part 4: both paths of `degrade` at once: `Src` (the map `_degrade` runs on: the map itself or
+          its re-housing), `Degraded` / `apiDegrade_ok` (the result in terms of the source alone).
+  Part 5: the reductions in terms of the VALID children (`coreRed_float`, `coreRed_int`,
+          `coreRed_recd`).
+  Part 6: facts about the numeric reductions (`reduceVals` on an empty group, zero weights).
+  Part 7: when `_degrade` succeeds (`apiDegrade_inrange_isOk_iff`).
+  Part 8: small facts for the property theorems.
+  Part 9: integer `or` over a zero sentinel is unaffected by the missing validity mask.
 -/
 import HealSparse.Lemmas.WFRes
 namespace HS
@@ -1596,6 +1605,123 @@ theorem wden_wmean (m wm : MapObj) (ordOut q : Nat) :
   intro p _ hp
   rw [wAt_invalid hp]
   rfl
+
+/-! ### Part 9: integer `or` over a zero sentinel is unaffected by the missing mask -/
+
+theorem pow2_pos (b : Nat) : (0 : Int) < 2 ^ b := Int.pow_pos (by decide)
+
+theorem wrapInt_emod (b : Nat) (sg : Bool) (x : Int) : wrapInt b sg (x % 2 ^ b) = wrapInt b sg x := by
+  unfold wrapInt
+  simp only [Int.emod_emod]
+
+theorem wrapInt_idem (b : Nat) (sg : Bool) (y : Int) : wrapInt b sg (wrapInt b sg y) = wrapInt b sg y := by
+  unfold wrapInt
+  simp only
+  split
+  · rename_i hc
+    simp only [Int.sub_emod_right, Int.emod_emod, hc, if_true]
+  · rename_i hc
+    simp only [Int.emod_emod, hc, Bool.false_eq_true, if_false]
+
+theorem wrapInt_zero {b : Nat} (hb : 0 < b) (sg : Bool) : wrapInt b sg 0 = 0 := by
+  obtain ⟨k, rfl⟩ : ∃ k, b = k + 1 := ⟨b - 1, by omega⟩
+  unfold wrapInt
+  simp only [Int.zero_emod]
+  have h2 : (2 : Int) ^ (k + 1) / 2 = 2 ^ k := by
+    rw [Int.pow_succ, Int.mul_ediv_cancel _ (by decide)]
+  have h3 : ¬ ((0 : Int) ≥ 2 ^ (k + 1) / 2) := by
+    rw [h2]; have := pow2_pos k; omega
+  simp only [h3, decide_false, Bool.and_false, Bool.false_eq_true, if_false]
+
+theorem intBitop_or_zero (b : Nat) (sg : Bool) (a : Int) :
+    intBitop (· ||| ·) (.int b sg) a 0 = wrapInt b sg a := by
+  unfold intBitop
+  simp only [Int.zero_emod, Int.toNat_zero, Nat.or_zero]
+  rw [Int.toNat_of_nonneg (Int.emod_nonneg a (Int.ne_of_gt (pow2_pos b))), wrapInt_emod]
+
+theorem intBitop_zero_or (b : Nat) (sg : Bool) (a : Int) :
+    intBitop (· ||| ·) (.int b sg) 0 a = wrapInt b sg a := by
+  unfold intBitop
+  simp only [Int.zero_emod, Int.toNat_zero, Nat.zero_or]
+  rw [Int.toNat_of_nonneg (Int.emod_nonneg a (Int.ne_of_gt (pow2_pos b))), wrapInt_emod]
+
+/-- a cell of an integer map of dtype `int b sg`: an integer in the range of the dtype -/
+def IntCell (b : Nat) (sg : Bool) (v : Val) : Prop := ∃ a, v = .num a 0 ∧ wrapInt b sg a = a
+
+theorem IntCell.or_zero {b : Nat} {sg : Bool} {x : Val} (hx : IntCell b sg x) :
+    Val.or (.int b sg) x (.num 0 0) = x := by
+  obtain ⟨a, rfl, ha⟩ := hx
+  show Val.num (intBitop (· ||| ·) (.int b sg) a 0) 0 = _
+  rw [intBitop_or_zero, ha]
+
+theorem IntCell.zero_or {b : Nat} {sg : Bool} {x : Val} (hx : IntCell b sg x) :
+    Val.or (.int b sg) (.num 0 0) x = x := by
+  obtain ⟨a, rfl, ha⟩ := hx
+  show Val.num (intBitop (· ||| ·) (.int b sg) 0 a) 0 = _
+  rw [intBitop_zero_or, ha]
+
+theorem IntCell.or {b : Nat} {sg : Bool} {x y : Val} (hx : IntCell b sg x) (hy : IntCell b sg y) :
+    IntCell b sg (Val.or (.int b sg) x y) := by
+  obtain ⟨a, rfl, _⟩ := hx
+  obtain ⟨c, rfl, _⟩ := hy
+  exact ⟨_, rfl, wrapInt_idem _ _ _⟩
+
+/-- zeros do not change an `or` fold -/
+theorem foldl_or_filter {b : Nat} {sg : Bool} (l : List Val) (hl : ∀ x ∈ l, IntCell b sg x)
+    (acc : Val) (hacc : IntCell b sg acc) :
+    l.foldl (Val.or (.int b sg)) acc =
+      (l.filter fun v => v != Val.num 0 0).foldl (Val.or (.int b sg)) acc := by
+  induction l generalizing acc with
+  | nil => rfl
+  | cons x t ih =>
+    have ht : ∀ y ∈ t, IntCell b sg y := fun y hy => hl y (List.mem_cons_of_mem _ hy)
+    have hx := hl x (List.mem_cons_self ..)
+    simp only [List.foldl_cons, List.filter_cons]
+    by_cases hz : x = Val.num 0 0
+    · subst hz
+      simp only [bne_self_eq_false, Bool.false_eq_true, if_false]
+      rw [hacc.or_zero]
+      exact ih ht acc hacc
+    · have : (x != Val.num 0 0) = true := by simpa using hz
+      simp only [this, if_true, List.foldl_cons]
+      exact ih ht _ (hacc.or hx)
+
+theorem intRed_or_cons (dt : DT) (s r : Val) (rest : List Val) :
+    intRed dt s "or" (r :: rest) = rest.foldl (Val.or dt) r := by
+  unfold intRed
+  simp
+
+/-- **integer `or` over the sentinel 0**: the unmasked fold over all cells equals the fold over
+    exactly the valid (non-zero) cells, and is the sentinel when there is none -/
+theorem intRed_or_zero {b : Nat} {sg : Bool} (hb : 0 < b) (cells : List Val)
+    (hl : ∀ x ∈ cells, IntCell b sg x) :
+    intRed (.int b sg) (.num 0 0) "or" cells =
+      intRed (.int b sg) (.num 0 0) "or" (cells.filter fun v => v != Val.num 0 0) := by
+  have hzero : IntCell b sg (.num 0 0) := ⟨0, rfl, wrapInt_zero hb sg⟩
+  have fold0 : ∀ l : List Val, (∀ x ∈ l, IntCell b sg x) →
+      l.foldl (Val.or (.int b sg)) (.num 0 0) = intRed (.int b sg) (.num 0 0) "or" l := by
+    intro l hl'
+    cases l with
+    | nil => rfl
+    | cons x t =>
+      rw [intRed_or_cons]
+      show t.foldl _ (Val.or (.int b sg) (.num 0 0) x) = t.foldl _ x
+      rw [(hl' x (List.mem_cons_self ..)).zero_or]
+  cases cells with
+  | nil => rfl
+  | cons r rest =>
+    have hrest : ∀ y ∈ rest, IntCell b sg y := fun y hy => hl y (List.mem_cons_of_mem _ hy)
+    have hr := hl r (List.mem_cons_self ..)
+    simp only [List.filter_cons]
+    by_cases hz : r = Val.num 0 0
+    · subst hz
+      simp only [bne_self_eq_false, Bool.false_eq_true, if_false]
+      rw [intRed_or_cons, foldl_or_filter rest hrest _ hzero]
+      exact fold0 _ (fun x hx => hrest x (List.mem_filter.1 hx).1)
+    · have : (r != Val.num 0 0) = true := by simpa using hz
+      simp only [this, if_true]
+      rw [intRed_or_cons, intRed_or_cons]
+      exact foldl_or_filter rest hrest r hr
 
 end ApiDegrade
 end HS
